@@ -375,6 +375,11 @@ static void tickit_destroy(Tickit *t)
   }
   if(signal_observer == t)
     signal_observer = NULL;
+  if(t->signal.pipefds[0] != -1) {
+    /* the self-pipe of the signal fallback */
+    close(t->signal.pipefds[0]);
+    close(t->signal.pipefds[1]);
+  }
 
   if(t->iowatches)
     destroy_watchlist(t, t->iowatches, t->evhooks->cancel_io);
